@@ -172,8 +172,13 @@ type_operators = [
 ]
 
 
+def _is_numeric(value):
+    # Booleans are not numbers for MongoDB.
+    return isinstance(value, numbers.Number) and not isinstance(value, bool)
+
+
 def _avg_operation(values):
-    values_list = list(v for v in values if isinstance(v, numbers.Number))
+    values_list = list(v for v in values if _is_numeric(v))
     if not values_list:
         return None
     return sum(values_list) / float(len(list(values_list)))
@@ -190,12 +195,12 @@ def _sum_operation(values):
     values_list = list()
     if decimal_support:
         for v in values:
-            if isinstance(v, numbers.Number):
+            if _is_numeric(v):
                 values_list.append(v)
             elif isinstance(v, decimal128.Decimal128):
                 values_list.append(v.to_decimal())
     else:
-        values_list = list(v for v in values if isinstance(v, numbers.Number))
+        values_list = list(v for v in values if _is_numeric(v))
     sum_value = sum(values_list)
     return decimal128.Decimal128(sum_value) if isinstance(sum_value, decimal.Decimal) else sum_value
 
